@@ -755,3 +755,21 @@ RECIPES = [('C12',
   '        return Vals\n'
   '    return no_data_return\n',
   "rdcards: '*' test spelled `in`, two explicit calls, keyword argument")]
+
+_F = "pyyeti/nastran/bulk.py"
+RECIPES += [
+    ("C12", "break", ["C12-R3"], _F, "        while j <= maxstart and length > j:", "        while i <= maxstart and length > j:",
+     "_rdfixed: column loop bounded by the field counter (fields beyond the 57th of a large-field card are lost)"),
+    ("C12", "break", ["C12-R3"], _F, '            vals = [_rdcomma(fiter, s, " +,", blank, tolist, keep_name)]',
+     '            vals = [_rdcomma(s, fiter, " +,", blank, tolist, keep_name)]', "rdcards: line and iterator swapped in the call of the comma reader"),
+    ("C12", "break", ["C12-R3"], _F, "        nfields += inc\n    return vals\n\n\ndef _rdcomma", "        nfields += inc - 1\n    return vals\n\n\ndef _rdcomma",
+     "_rdfixed: short lines padded to one field less than a line holds"),
+    ("C12", "break", ["C12-R2"], _F, '    field = f"{svalue4 + sign + exp2:>8s}"', '    field = f"{svalue4 + exp2:>8s}"',
+     "_format_scientific8: exponent sign left out"),
+    ("C12", "neutral", [], _F, '    sign = "-" if abs(value) < 1.0 else "+"', '    sign = "-" if abs(value) <= 1.0 else "+"',
+     "_format_scientific8: '-0' instead of '+0' for |value| = 1 (same number, same width)"),
+    ("C12", "neutral", [], _F, "        while j <= maxstart and length > j:", "        while j <= maxstart and length >= j:",
+     "_rdfixed: a line that ends on a field boundary yields one more blank, which padding supplies anyway"),
+    ("C12", "neutral", [], _F, "        if i > 0 and i % 8 == 0:\n            f.write(\"\\n+       \")", "        if i % 8 == 0 and i:\n            f.write(\"\\n\" + \"+\".ljust(8))",
+     "wtcard8: continuation head assembled with ljust"),
+]
